@@ -35,6 +35,7 @@ class BuilderSystem:
         """Decode emitted chunks, feed them to the interpreter."""
         st.last_lines = []
         st.last_infos = []
+        st.last_events = []
         for c in chunks:
             s = c.decode("utf-8")
             if not s.endswith(self.ending) or self.ending in s[: -len(self.ending)]:
@@ -47,6 +48,7 @@ class BuilderSystem:
                 words = [w for w in words if w[0] != "?"]
             st.last_lines.append(block)
             st.last_infos.append(st.machine.feed_words(words))
+            st.last_events += st.machine.events
 
     def apply(self, st, op):
         """Real call with context bookkeeping. Returns (exc, chunks)."""
